@@ -61,7 +61,13 @@ MANIFEST = {
              "heap of model objects refine the stateless specification (every simulate sees the parameters in force); the terminal condition with "
              "log-variables over an abstract log/exp (a window of columns is equivalent to all columns iff no log-variable of the state vector lies "
              "outside it); the executable QMat terminator refines the Mathlib-matrix recursion (no ring-law hypothesis left); the known finding is "
-             "machine-checked on the model of the current first-order code (`finding_*`). PARTIAL: Newton iteration, sparse LU, convergence and floating point are "
+             "machine-checked on the model of the current first-order code (`finding_*`). Last round: the terminal values are pinned for EVERY terminal "
+             "column (k-fold iterate of xi -> T xi + K, also for the executable QMat terminator); frames computed from any data tile the span "
+             "(input-level corollary); frames per data variant are local to that variant; an initial guess (either mode) writes only current-dated "
+             "transition rows inside the base span, so terminal columns keep the input; method spellings resolve to one simulator and a run depends "
+             "on the string only through it; pruning never leaks into the main array; rejection branches (non-finite entry <=> undefined norm, "
+             "division by zero, missing cell, unknown method string, no model variant). Hypotheses that remain per-run validated, not proved: the "
+             "affine form and injectivity of the stacked Jacobian, the first-order certificate. PARTIAL: Newton iteration, sparse LU, convergence and floating point are "
              "runtime and outside the theorems; log-variables are outside the model. Tie: exact/tolerance correspondence of the model with "
              "the real evaluator, terminator, frame splitter and frame loop on every run (model input = the implementation's own compiled "
              "equations), certificate validation in exact rationals for linear models, plus an independent residual oracle on the output "
@@ -1290,10 +1296,27 @@ def compare_items(ctx: Ctx, items, replies):
             else:
                 ctx.count(f"termlog:log-variable-reaches-back-{meta['loglag']}-columns")
             continue
+        if stream == "iguess":
+            if rep == "bad-op":
+                ctx.disagree(stream, {"request": short}, "array expected", rep); continue
+            mod = parse_cells(rep)
+            sc_ = max([1.0] + [abs(x) for x in impl if math.isfinite(x)])
+            bad = len(mod) != len(impl) or any((math.isnan(a) != math.isnan(b)) or (math.isfinite(a) and abs(a - b) > TOL_MODEL * sc_) for a, b in zip(impl, mod))
+            if bad:
+                k = next((i for i, (a, b) in enumerate(zip(impl, mod)) if (math.isnan(a) != math.isnan(b)) or (math.isfinite(a) and abs(a - b) > TOL_MODEL * sc_)), -1)
+                ctx.disagree(stream, {"request": short, "cell": k}, repr(impl[k]) if k >= 0 else f"{len(impl)} cells", repr(mod[k]) if k >= 0 else f"{len(mod)} cells")
+            else:
+                ctx.count(f"iguess:{meta['mode']}:{'missing-initial' if meta['nan'] else 'finite'}")
+            continue
         if stream == "finding":
             parts = [parse_cells(x) for x in rep.split("|")] if "|" in rep else []
             if len(parts) != 3 or any(len(a) != len(b) or any(abs(x - y) > 1e-9 for x, y in zip(a, b)) for a, b in zip(impl, parts)):
                 ctx.disagree(stream, {"request": req}, repr(impl), rep)
+            continue
+        if stream == "frames-per-variant":
+            got = rep.split("|")[1].strip() if rep.count("|") == 2 else rep        # the stacked-time frames of the model's `frames` reply
+            if got != impl:
+                ctx.disagree(stream, {"request": short}, impl, got)
             continue
         if stream in ("frames", "writers", "spots", "catch", "pair", "hist", "method"):
             if rep != impl:
@@ -1342,10 +1365,16 @@ class PairMarker(Marker):
     """records which parameter variant and which data variant meet in each pass of the loop over variants"""
     def __init__(self, base, model, cell):
         super().__init__(base)
-        self.model, self.cell, self.pairs = model, cell, []
+        self.model, self.cell, self.pairs, self.frames_seen = model, cell, [], []
+
+    def simulate_frame(self, model_v, frame_ds, *, frame, **kw):
+        # the frames each pass of the loop over variants REALLY runs (whoever computed them, whenever)
+        self.frames_seen[-1][0].append(f"{frame.first}:{frame.last}:{frame.simulation_last}")
+        return super().simulate_frame(model_v, frame_ds, frame=frame, **kw)
 
     def simulate_initial_guess(self, model_v, dataslate_v, plan, **kw):
         super().simulate_initial_guess(model_v, dataslate_v, plan, **kw)
+        self.frames_seen.append(([], dataslate_v.get_data_variant().copy(), dataslate_v.base_columns))
         mi = next((j for j, v in enumerate(self.model._variants) if model_v._variants[0] is v), None)
         x = dataslate_v.get_data_variant()[self.cell[0], dataslate_v.base_columns[0]]
         self.pairs.append((mi, int(round(x)) - 10 if math.isfinite(x) else None))
@@ -1363,8 +1392,9 @@ def with_marker(mk, fn):
 def glue_pair_item(ctx: Ctx, rng, spec):
     if not spec["shocks"]:
         return []
-    nM, nD = rng.choice([1, 1, 2, 3]), rng.choice([1, 2, 3])
+    nM = rng.choice([1, 1, 2, 3])
     N = max(nM, rng.choice([1, 2, 3, 4]))      # fewer requested variants than model variants is rejected by the code
+    nD = rng.choice([1, N, N])                  # a databox series broadcasts from a single variant only ("Cannot broadcast" otherwise)
     m = build_model(spec) if nM == 1 else build_model_variants(spec, nM)
     mD = build_model(spec) if nD == 1 else build_model_variants(spec, nD)
     if m is None or mD is None:
@@ -1374,6 +1404,9 @@ def glue_pair_item(ctx: Ctx, rng, spec):
     db = ir.Databox.steady(mD, span)
     sh = spec["shocks"][0]
     db[sh][start] = [float(10 + v) for v in range(nD)] if nD > 1 else 10.0
+    if nD > 1:      # unanticipated shocks at different dates in different data variants: every variant has its own frames
+        db[sh][start + 1] = [float(v % 2) for v in range(nD)]
+        db[sh][start + 2] = [float((v + 1) % 2) * 0.5 for v in range(nD)]
     mk = PairMarker(_st, m, (m.create_name_to_qid()[sh], None))
     try:
         with_marker(mk, lambda: m.simulate(db, span, method="__c06_marker", num_variants=N, remove_terminal=False, remove_initial=False))
@@ -1382,7 +1415,12 @@ def glue_pair_item(ctx: Ctx, rng, spec):
         return []
     show = lambda x: "-" if x is None else str(x)
     impl = " ".join(f"{k}:{show(a)}:{show(b)}" for k, (a, b) in enumerate(mk.pairs))
-    return [("pair", f"pair {N} {nM} {nD}", impl, None)]
+    items = [("pair", f"pair {N} {nM} {nD}", impl, None)]
+    unant_qids = list(_sim._get_unanticipated_shock_qids(m))
+    for used, arr, base_cols in mk.frames_seen:      # the frames every pass of the loop over variants really ran, vs the model on that variant's data
+        items.append(("frames-per-variant", f"frames {base_cols[0]} {len(base_cols)} {len(unant_qids)} " + " ".join(map(str, unant_qids)) + " " + data_text(arr),
+                      " ".join(used), None))
+    return items
 
 
 def glue_hist_item(ctx: Ctx, rng, spec):
@@ -1456,6 +1494,49 @@ def glue_termlog_item(ctx: Ctx, rng, spec, sc):
            + f" {L} {last} {n} {bits(T)} {bits(K)} {before.shape[0]} {before.shape[1]} {bits(before)}")
     maxlag = max([-s_ for q, s_ in toks if q2l.get(q)] + [0])
     return [("termlog", req, impl, dict(loglag=maxlag + 1))]
+
+
+def termspec_text(m):
+    sol = m._gets_solution(deviation=False)
+    vec = m._get_dynamic_solution_vectors()
+    T = np.asarray(sol.T, dtype=float); K = np.asarray(sol.K, dtype=float).reshape(-1, 1)
+    toks = [(tk.qid, tk.shift) for tk in vec.transition_variables]
+    cq, ci = vec.get_curr_transition_indexes()
+    return (f"{m.max_lead} {qmat_text(T)} {qmat_text(K)} {len(toks)} " + " ".join(f"{q} {s_}" for q, s_ in toks)
+            + f" {len(cq)} " + " ".join(f"{q} {i}" for q, i in zip(cq, ci)))
+
+
+def glue_iguess_items(ctx: Ctx, rng, spec, sc):
+    """the real `simulate_initial_guess` of both modes on the real main dataslate (terminal columns off the steady state) vs `initialGuess`"""
+    m = build_model(spec)
+    if m is None or spec["logvars"]:
+        return []
+    db, span = build_db(spec, m, dict(sc, missing={}, term_data=True))
+    slatable = m.slatable_for_simulate(shocks_from_data=True, stds_from_data=True, parameters_from_data=False, output_parameters=False)
+    items = []
+    for mode in ("first_order", "data"):
+        ds = Dataslate.from_databox_for_slatable(slatable, db, tuple(span), num_variants=1)
+        data = ds.get_data_variant()
+        vec = m._get_dynamic_solution_vectors()
+        if mode == "first_order" and rng.chance(0.3):     # rejection branch: a missing initial condition that the recursion reads
+            true_toks = [t for t, flag in zip(vec.transition_variables, vec.true_initials) if flag]
+            if true_toks:
+                t = rng.choice(true_toks)
+                data[t.qid, ds.base_columns[0] - 1 + t.shift] = float("nan")
+        for t, flag in zip(vec.transition_variables, vec.true_initials):       # cells the code zeroes anyway must be finite for the model
+            if not flag and math.isnan(data[t.qid, ds.base_columns[0] - 1 + t.shift]):
+                data[t.qid, ds.base_columns[0] - 1 + t.shift] = 0.0
+        before = data.copy()
+        try:
+            with quiet():
+                _st.simulate_initial_guess(m, ds, None, initial_guess=mode)
+        except Exception as e:
+            ctx.count(f"iguess:impl-raised:{type(e).__name__}")
+            continue
+        after = ds.get_data_variant()
+        req = f"iguess {mode} {termspec_text(m)} {ds.base_columns[0]} {len(ds.base_columns)} {data_text(before)}"
+        items.append(("iguess", req, [float(x) for x in after.ravel()], dict(mode=mode, nan=bool(np.isnan(before).any()))))
+    return items
 
 
 FINDING_PREFIX = "+ + + n v 0 0 * c 1/2 v 0 -1 v 3 0 + v 1 0 v 2 0"
@@ -1598,6 +1679,11 @@ def run(ctx: Ctx):
         rng = ctx.rng.fork(f"glue{i}")
         try:
             items += glue_pair_item(ctx, rng.fork("pair"), gen_spec(rng, ["lin-b", "poly-b", "solow"][i % 3]))
+            if i % 2 == 1:
+                sp_ = gen_spec(rng, ["lin-f", "lin-b", "poly-f"][(i // 2) % 3])
+                m_ = build_model(sp_)
+                if m_ is not None:
+                    items += glue_iguess_items(ctx, rng.fork("iguess"), sp_, gen_scenario(rng, sp_, m_, not sp_["linear"]))
             if i % 2 == 0:
                 items += glue_hist_item(ctx, rng.fork("hist"), gen_spec(rng, HISTORY_KINDS[(i // 2) % len(HISTORY_KINDS)]))
                 spec = gen_spec(rng, ["loglin-f", "rbc"][(i // 2) % 2])
